@@ -214,6 +214,33 @@ def same_object_twice(c, first, middle):
 exec(TWICE_SRC)  # noqa: S102
 
 
+CLEANUP_HISTORY_SRC = """
+def cleanup_after_heavy(c):
+    # a heavy clean-up earlier in the process must not change what a later light clean-up does
+    from cirbo.minimization.simplification import cleanup, MergeDuplicateGates as MD, MergeUnaryOperators as MU, RemoveRedundantGates as RRG
+    cleanup(c, use_heavy=True)
+    light = cleanup(c)
+    seq = MD().transform(MU().transform(RRG().transform(c)))
+    return light, seq
+"""
+exec(CLEANUP_HISTORY_SRC)  # noqa: S102
+
+
+def cleanup_history_check(p, name, c):
+    if len(c.inputs) > 6:
+        return
+    p.case(("cleanup-history", circ.snapshot(c)[:3]))
+    try:
+        light, seq = cleanup_after_heavy(c)  # noqa: F821
+        bad = None if same_circuit(light, seq) else f"cleanup() gives {circ.describe(light)}, its three passes in sequence give {circ.describe(seq)}"
+    except Exception as e:  # noqa: BLE001
+        bad = f"raised {type(e).__name__}: {e}"
+    if bad:
+        p.violation("pipeline:cleanup-after-heavy-cleanup", f"after a cleanup(use_heavy=True) in the same process, on {circ.describe(c)}: {bad}",
+                    REPLAY_PRELUDE + circ.circ_src(c) + CLEANUP_HISTORY_SRC + "\ntry:\n    light, seq = cleanup_after_heavy(c)\n    same = light==seq and circ.netlist_of(light)==circ.netlist_of(seq)\n"
+                    "except Exception as e:\n    print(type(e).__name__, e); same=False\nprint(same)\nsys.exit(0 if same else 1)\n")
+
+
 def twice_checks(p, name, c):
     for first, middle in (("MD", "MU"), ("MD", "RRG"), ("MU", "MD"), ("RRG", "MU"), ("ME", "MU")):
         if first == "ME" and len(c.inputs) > 6:
@@ -264,6 +291,7 @@ def unit(p, item, tier, seed):
     for name, c in fam:
         effect_checks(p, name, c)
         twice_checks(p, name, c)
+        cleanup_history_check(p, name, c)
         for spec in rnd.sample(specs, min(len(specs), 8 if tier == "quick" else 25)):
             if ("ME()" in spec or spec == "cleanup(True)") and len(c.inputs) > 6:
                 continue
